@@ -1009,6 +1009,134 @@ inner:
 ]
 
 
+# programs containing an instruction that branches to itself (x86 LOOP / LOOPNE / REP to `self`) or a tight loop
+# whose branch targets its own block head; labels `self` / `self2` mark the places where the harness puts breakpoints
+# (the iteration count comes from the arguments).  Registers on entry: x86_32: stack (a, b, c, arr) ;
+# x86_64: RDI RSI RDX RCX ; x86_16: AX CX DX BX ; arm: R0-R3.
+SELF_BRANCH_TEMPLATES = {
+    "x86_32": [
+        ("s32_loop_self", """
+main:
+    MOV ECX, DWORD PTR [ESP+4]
+    MOV EDX, DWORD PTR [ESP+16]
+    AND ECX, 7
+    INC ECX
+    MOV EAX, ECX
+self:
+    LOOP self
+    ADD EAX, 3
+    MOV DWORD PTR [EDX], EAX
+    MOV ECX, DWORD PTR [ESP+8]
+    AND ECX, 3
+    ADD ECX, 2
+self2:
+    LOOPNE self2
+    MOV DWORD PTR [EDX+4], ECX
+    RET
+"""),
+        ("s32_rep_self", """
+main:
+    MOV EDX, DWORD PTR [ESP+16]
+    MOV ECX, DWORD PTR [ESP+8]
+    AND ECX, 3
+    ADD ECX, 2
+    MOV EAX, DWORD PTR [ESP+4]
+    PUSH EDI
+    MOV EDI, EDX
+    CLD
+self:
+    REP STOSD
+    MOV EAX, EDI
+    POP EDI
+    RET
+"""),
+        ("s32_block_self", """
+main:
+    MOV ECX, DWORD PTR [ESP+4]
+    MOV EDX, DWORD PTR [ESP+16]
+    AND ECX, 7
+    INC ECX
+    XOR EAX, EAX
+self:
+    ADD EAX, ECX
+    DEC ECX
+self2:
+    JNZ self
+    MOV DWORD PTR [EDX], EAX
+    RET
+"""),
+    ],
+    "x86_16": [
+        ("s16_loop_self", """
+main:
+    AND CX, 7
+    INC CX
+    MOV AX, CX
+self:
+    LOOP self
+    ADD AX, DX
+    MOV WORD PTR [BX], AX
+    MOV CX, 3
+    LEA DI, WORD PTR [BX+4]
+    CLD
+self2:
+    REP STOSW
+    RET
+"""),
+    ],
+    "x86_64": [
+        ("s64_loop_self", """
+main:
+    MOV R8, RCX
+    MOV RCX, RDI
+    AND RCX, 7
+    INC RCX
+    MOV RAX, RCX
+self:
+    LOOP self
+    ADD RAX, RSI
+    MOV QWORD PTR [R8], RAX
+    RET
+"""),
+    ],
+    "arml": [
+        ("sarm_block_self", """
+main:
+    AND R2, R0, 7
+    ADD R2, R2, 1
+    MOV R0, 0
+self:
+    ADD R0, R0, R2
+    SUBS R2, R2, 1
+self2:
+    BNE self
+    STR R0, [R3]
+    AND R2, R1, 3
+    ADD R2, R2, 2
+self3:
+    SUBS R2, R2, 1
+    BNE self3
+    STR R2, [R3, 4]
+    BX LR
+"""),
+    ],
+}
+SELF_COUNTER = {"x86_32": "RCX", "x86_16": "RCX", "x86_64": "RCX", "arml": "R2"}
+
+
+def self_branch_programs(arch, addr=None):
+    """-> list of dict(tag, code, labels, ...) like template_programs"""
+    addr = layout(arch)["code"] if addr is None else addr
+    out = []
+    for name, text in SELF_BRANCH_TEMPLATES.get(arch, []):
+        try:
+            code, labels = assemble(arch, text, addr)
+            out.append(dict(tag=name, code=code, labels=labels, src=text, base=labels["__base__"], entry=addr))
+        except Exception as e:
+            out.append(dict(tag=name, code=None, reason="asm:%s" % type(e).__name__, src=text))
+    return out
+
+
 def template_programs(arch, addr=None):
     """-> list of dict(tag, code, labels, instr_addrs|None); failures to assemble are returned with code=None"""
     addr = layout(arch)["code"] if addr is None else addr
